@@ -232,6 +232,7 @@ type Obj struct {
 	VerC    map[int]int // map obj -> log length at cache time
 	MapObj int
 	Snap   map[int]int // map object -> length of its write log when the range started
+	Perm   bool        // candidates are a symbolic permutation of the live entries (keys pairwise distinct)
 	Cur    []CurAlt
 	Epoch  int // allocation order (for freeze)
 }
